@@ -93,7 +93,7 @@ let all_pcs =
      WT_IfLen n; WT_Forward n; WT_Default n; WT_Remove n; WT_RetErr n; WT_CaseCh n; WT_RetNil n; FR_Put (n, true);
      LEN LenOne; FT_Ret NNOne; NO_Lock; NO_Defer; NO_IfLen; NO_Ret; NO_Next; NA_Lock; NA_Defer; NA_For; NA_Next;
      NN_Front NNOne; NN_Ch (NNOne, n); NN_Remove (NNOne, n); NN_Send (NNOne, n);
-     RM_1 (RMWait n, n); RM_2 (RMWait n, n); RM_3 (RMWait n, n); RM_4 (RMWait n, n); RM_5 (RMWait n, n)]
+     RM_1 (RMWait, n); RM_2 (RMWait, n); RM_3 (RMWait, n); RM_4 (RMWait, n); RM_5 (RMWait, n)]
 
 let mode = ref "rnd"
 
@@ -123,7 +123,7 @@ module M = struct
     | NN_Front (NNWait n) | NN_Ch (NNWait n, _) | NN_Remove (NNWait n, _) | NN_Send (NNWait n, _)
     | RM_1 (RMNext (NNWait n), _) | RM_2 (RMNext (NNWait n), _) | RM_3 (RMNext (NNWait n), _)
     | RM_4 (RMNext (NNWait n), _) | RM_5 (RMNext (NNWait n), _)
-    | RM_1 (RMWait n, _) | RM_2 (RMWait n, _) | RM_3 (RMWait n, _) | RM_4 (RMWait n, _) | RM_5 (RMWait n, _) -> Some n
+    | RM_1 (RMWait, n) | RM_2 (RMWait, n) | RM_3 (RMWait, n) | RM_4 (RMWait, n) | RM_5 (RMWait, n) -> Some n
     | _ -> None
   let before_mu_in_ctx_branch = function WT_CaseCtx _ | WT_Lock _ -> true | _ -> false
   let is_notifier_pc p = not (in_wait p)
@@ -247,7 +247,7 @@ module M = struct
             | NA_Lock -> let k = List.length c.c_lst in
               if c.c_mu <> None then [] else [Printf.sprintf "broadcast-with-%s-waiters-in-list" (if k >= 3 then "3+" else string_of_int k)]
             | AL_Get -> if int_of_nat o > 0 then ["pool-reuse-by-later-waiter"] else ["pool-miss-new-node"]
-            | RM_1 (RMWait _, _) -> ["timed-out-waiter-unlinks-itself"]
+            | RM_1 (RMWait, _) -> ["timed-out-waiter-unlinks-itself"]
             | WT_Select nd ->
               if has_tok c nd then ["select-finds-token-buffered"]
               else if mem_nat t c.c_canc then ["select-finds-ctx-done"] else ["waiter-parks"]
